@@ -32,6 +32,18 @@ A HISTORY is a list of events (JSON-able lists):
                 ('ioerr', k)     the k-th call (first file-system call at or
                                  after k) raises OSError(EIO)
 
+  ['PresenceAppears'] ['PresenceDisappears']   /server.presence/<host> created / deleted
+  ['PlacementAppears'] ['PlacementDisappears'] /placement/<host> created / deleted recursively
+  ['Live', [event, ...]]     (readiness extension) the real EventMgr.run() main loop, once=False,
+        on the fake client.  time.sleep is the turnstile: every time the loop
+        reaches it the driver applies the next events of the list -- ZooKeeper
+        changes, after each of which the callbacks zkfake queued are delivered,
+        i.e. the real _server_presence_watch / _app_watch run -- up to the next
+        ['Heartbeat'], which lets sleep return (loop: _cache_notify,
+        _check_placement, watchdog heartbeat, sleep).  When the list is used up
+        the process is killed.  Lines: LiveStart, CacheNotify [is_ready] (every
+        call), ZkExists [found], Sleep, Heartbeat, and the usual sync lines.
+
 Instances are canonical names i1..i9 (real name proid.<a>#000000000<k>).  The
 write path is observed from outside by wrapping tempfile.NamedTemporaryFile,
 the returned file object's write/close, yaml.dump (so that the stream is
@@ -63,6 +75,7 @@ INSTS = ['i%d' % k for k in range(1, 6)]
 MVERS = [1, 2, 3]
 PVERS = [0, 1, 2, 3]
 ENV_EVS = ('Place', 'Unplace', 'SetPD', 'SetMan', 'DelMan')
+RD_EVS = ('PresenceAppears', 'PresenceDisappears', 'PlacementAppears', 'PlacementDisappears')
 FS_CALLS = ('Unlink', 'CreateTmp', 'Write', 'Chmod', 'Close', 'Rename')
 FAR = 10 ** 7           # seconds: "earlier/later than any cache file"
 
@@ -180,6 +193,10 @@ class _Exited(BaseException):
     """utils.sys_exit (os._exit in the real process) was called."""
 
 
+class _Stop(BaseException):
+    """The history of a live run() is used up: the process is killed in its sleep."""
+
+
 class _FileProxy:
     """Stands in for the temporary file object: write and close are recorded."""
 
@@ -233,6 +250,9 @@ class Replay:
         self.rec = None          # state of the sync being recorded
         self.quiet = 0           # >0: wrappers pass through (harness's own calls)
         self.nprior = 0
+        self.livemode = False
+        self.live_q = []
+        self._queued = []
         try:
             self.evmgr = self.m['em'].EventMgr(root=self.root)
             self._notify = self.m['em'].EventMgr._cache_notify     # the unwrapped function
@@ -243,6 +263,7 @@ class Replay:
             self.env_zk = zkfake.ZkFakeClient(self.store)
             self.zk = zkfake.ZkFakeClient(self.store)
             self.ppath = '/placement/%s' % self.host
+            self.prespath = '/server.presence/%s' % self.host
             self.env_zk.ensure_path(self.ppath)
             self.env_zk.ensure_path('/scheduled')
             self.env_zk.ensure_path('/server.presence/%s' % self.host)   # run(): presence is up
@@ -304,7 +325,7 @@ class Replay:
     def project_zk(self):
         now = time.time()
         pl, man = {}, {}
-        for raw in self.store.children(self.ppath):
+        for raw in (self.store.children(self.ppath) if self.ppath in self.store.nodes else []):
             node = self.store.nodes['%s/%s' % (self.ppath, raw)]
             # new = "the cache file is older than the placement node", by the
             # ACTUAL comparison of the two time stamps (no file: against now)
@@ -315,12 +336,15 @@ class Replay:
             pl[canon_name(raw)] = dict(data=self._decode(node.data), new=bool(node.ctime / 1000.0 > ref))
         for raw in self.store.children('/scheduled'):
             man[canon_name(raw)] = self._decode(self.store.nodes['/scheduled/' + raw].data)
-        return dict(pl=pl, man=man)
+        return dict(pl=pl, man=man, presence=self.prespath in self.store.nodes,
+                    plnode=self.ppath in self.store.nodes)
 
     def emit(self, ev, args, **extra):
         if not self.logging:
             return
-        line = dict(ev=ev, args=args, post=dict(zk=self.project_zk(), dir=self.project_dir()))
+        wdir = self.evmgr.tm_env.watchdog_dir
+        lease = os.path.isdir(wdir) and any(n.startswith('svc-EventMgr') for n in os.listdir(wdir))
+        line = dict(ev=ev, args=args, post=dict(zk=self.project_zk(), dir=self.project_dir(), wd=bool(lease)))
         line.update(extra)
         self.sink(line)
 
@@ -336,11 +360,16 @@ class Replay:
         # one.  While the history applies an event no watch fires; in run() mode the
         # next Sync of the history stands for the queued delivery.
         watches = (self.store.child_watches, self.store.data_watches)
-        self.store.child_watches, self.store.data_watches = {}, {}
+        self._queued = []
+        if self.livemode:
+            # live run(): the callbacks are queued and delivered after the event's line
+            self.store._fire = self._queued.extend        # pylint: disable=protected-access
+        else:
+            self.store.child_watches, self.store.data_watches = {}, {}
         try:
             if ev == 'Place':
                 path = '%s/%s' % (self.ppath, real_name(x[0]))
-                if path in self.store.nodes:
+                if path in self.store.nodes or self.ppath not in self.store.nodes:
                     return False
                 zku.put(self.env_zk, path, payload(x[1]))
                 self.store.nodes[path].ctime = self._node_ctime(x[0], bool(x[2]), len(x) > 3 and bool(x[3]))
@@ -365,11 +394,30 @@ class Replay:
                 if bool(x[0]) == os.path.exists(os.path.join(self.cache, self.m['em'].READY_FILE)):
                     return False                  # no change of state: not an event of the model
                 self._notify(self.evmgr, bool(x[0]))
+            elif ev == 'PresenceAppears':
+                if self.prespath in self.store.nodes:
+                    return False
+                self.env_zk.create(self.prespath, b'{"valid_until": 0}', makepath=True)
+            elif ev == 'PresenceDisappears':
+                if self.prespath not in self.store.nodes:
+                    return False
+                self.env_zk.delete(self.prespath)
+            elif ev == 'PlacementAppears':
+                if self.ppath in self.store.nodes:
+                    return False
+                self.env_zk.ensure_path(self.ppath)
+            elif ev == 'PlacementDisappears':
+                if self.ppath not in self.store.nodes:
+                    return False
+                self.env_zk.delete(self.ppath, recursive=True)
             else:
                 raise tlc.MachineryError('unknown environment event %r' % (e,))
             return True
         finally:
-            self.store.child_watches, self.store.data_watches = watches
+            if self.livemode:
+                del self.store._fire                          # pylint: disable=protected-access
+            else:
+                self.store.child_watches, self.store.data_watches = watches
             self.quiet -= 1
 
     def _node_ctime(self, a, new, near):
@@ -400,8 +448,10 @@ class Replay:
     # -- one event of the history -------------------------------------------
     def apply(self, e):
         ev = e[0]
-        if ev in ENV_EVS:
+        if ev in ENV_EVS or ev in RD_EVS:
             self.env(e)
+        elif ev == 'Live':
+            self.live(e[1])
         elif ev == 'Notify':
             if self.pc in ('idle', 'synced'):
                 self.env(e)
@@ -461,6 +511,8 @@ class Replay:
             self.apply(['Restart'])
         if self.pc == 'down':
             self.apply(['Boot'])
+        if self.ppath not in self.store.nodes or self.prespath not in self.store.nodes:
+            return []          # readiness histories only: no watch would deliver anything / keep run() mode simple
         conc = {int(k): [list(x) for x in v] for k, v in (opts.get('conc') or {}).items()}
         cut = opts.get('cut') or None
         via_run = bool(opts.get('run')) and self.first
@@ -589,6 +641,84 @@ class Replay:
             self.store.child_watches.clear()
             self.store.data_watches.clear()
 
+    def live(self, events):
+        """Readiness extension: the real main loop of EventMgr.run() (see the
+        module docstring).  Same replacements as _run_body; syncs are recorded
+        as usual (no cuts, no changes inside a sync)."""
+        if self.pc in ('dead', 'failed'):
+            self.apply(['Restart'])
+        if self.pc == 'down':
+            self.apply(['Boot'])
+        if not self.first:
+            return
+        em_mod = self.m['em']
+        cls = em_mod.EventMgr
+        real_sync = cls._synchronize            # pylint: disable=protected-access
+        real_notify = self._notify
+        rp = self
+
+        def w_sync(this, zkclient, expected, check_existing=False):
+            rp.first = False
+            rp.emit('SyncBegin', [sorted(canon_name(r) for r in expected), bool(check_existing)])
+            rp._sync_body(lambda: real_sync(this, zkclient, expected, check_existing=check_existing),
+                          reraise=True)
+
+        def w_notify(this, is_ready):
+            rp.quiet += 1
+            try:
+                real_notify(this, is_ready)
+            finally:
+                rp.quiet -= 1
+            rp.emit('CacheNotify', [bool(is_ready)])
+
+        def w_exit(code):
+            raise _Exited(code)
+
+        def w_sleep(_secs):
+            rp.emit('Sleep', [])
+            while rp.live_q:
+                e = rp.live_q.pop(0)
+                if e[0] == 'Heartbeat':
+                    rp.emit('Heartbeat', [])
+                    return
+                if rp._apply_env(e):
+                    rp.emit(e[0], list(e[1:]))
+                    for fn, event in rp._queued:          # kazoo's handler thread: one after the other
+                        fn(event)
+            raise _Stop()
+
+        zkctx = em_mod.context.GLOBAL.zk
+        saved = zkctx._conn                     # pylint: disable=protected-access
+        patches = [mock.patch.object(cls, '_synchronize', w_sync),
+                   mock.patch.object(cls, '_cache_notify', w_notify),
+                   mock.patch.object(em_mod.utils, 'sys_exit', w_exit),
+                   mock.patch.object(em_mod.time, 'sleep', w_sleep)]
+        self.live_q = [list(e) for e in events]
+        self.rec = dict(j=0, conc={}, cut=None, calls=[], active=False)
+        self.emit('LiveStart', [])
+        self.livemode = True
+        for p in patches:
+            p.start()
+        try:
+            zkctx.conn = self.zk
+            try:
+                self.evmgr.run(once=False)
+            except _Stop:
+                self.pc = 'dead'
+            except _Exited:
+                if self.pc != 'failed':
+                    raise tlc.MachineryError('EventMgr.run exited outside _synchronize')
+        finally:
+            zkctx.conn = saved
+            for p in reversed(patches):
+                p.stop()
+            self.livemode = False
+            self.rec = None
+            self.store.child_watches.clear()
+            self.store.data_watches.clear()
+        if self.pc == 'dead':
+            self.emit('Crash', [])
+
     def _sync_child(self, body):
         """TRUE crash: the sync runs in a forked child that os._exit()s inside
         the k-th recorded call; its lines come back through a pipe."""
@@ -699,6 +829,10 @@ class Replay:
         return res
 
     def _gate(self, session, op, path):
+        if (self.livemode and not self.quiet and session == self.zk.session and op == 'exists'
+                and path == self.ppath):
+            self.emit('ZkExists', [path in self.store.nodes])       # _check_placement
+            return
         if (self.rec is None or self.quiet or not self.rec['active']
                 or session != self.zk.session or op != 'get'):
             return
@@ -820,10 +954,23 @@ def from_labels(labels):
     """A TLC behaviour of NodeCache.tla (action labels) -> a history.  Only the
     ENVIRONMENT's choices are taken: what the agent does inside a Sync is the
     implementation's own business, observed and judged by the trace spec."""
-    hist, cur, steps = [], None, 0
+    hist, cur, steps, live = [], None, 0, None
     for ev, args in labels:
         args = [sorted(a) if isinstance(a, (set, frozenset)) else a for a in args]
-        if ev in ENV_EVS or ev == 'Notify':
+        if ev == 'LiveStart':
+            live = []
+            hist.append(['Live', live])
+        elif live is not None:
+            # inside the live loop only the environment's choices are taken
+            if ev in ENV_EVS or ev in RD_EVS or ev == 'Heartbeat':
+                live.append([ev] + list(args))
+            elif ev in ('Crash', 'Raise', 'Restart'):
+                live = None
+        elif ev in RD_EVS:
+            hist.append([ev])
+        elif ev in ('CacheNotify', 'ZkExists', 'Sleep', 'Heartbeat'):
+            pass
+        elif ev in ENV_EVS or ev == 'Notify':
             if cur is not None:
                 cur['conc'].setdefault(steps, []).append([ev] + list(args))
             else:
@@ -854,6 +1001,8 @@ def from_labels(labels):
     out = []
     for e in hist:
         plain = e[0] == 'Sync' and not e[1]['conc'] and not e[1]['cut']
+        if e[0] == 'Live' and not e[1]:
+            e[1].append(['Heartbeat'])
         if plain and len(out) >= 2 and all(x[0] == 'Sync' and not x[1]['conc'] and not x[1]['cut']
                                            for x in out[-2:]):
             continue
@@ -936,4 +1085,47 @@ def vary(hist, rng):
                 for x in evs:
                     if x[0] == 'Place' and len(x) == 4 and rng.random() < 0.5:
                         x.append(True)
+    return hist
+
+
+def gen_live(rng, insts=3):
+    """Seeded random history for the readiness extension: prior cache, ZooKeeper
+    state (presence / placement node possibly absent), then the live run() loop
+    with heartbeats, placement changes, presence flips and the placement node
+    disappearing / reappearing."""
+    names = INSTS[:insts]
+    hist = []
+    for a in names:
+        if rng.random() < 0.4:
+            hist.append(['PriorFile', a, rng.choice(MVERS), rng.choice(PVERS)])
+        if rng.random() < 0.6:
+            hist.append(['SetMan', a, rng.choice(MVERS)])
+        if rng.random() < 0.5:
+            hist.append(['Place', a, rng.choice(PVERS), rng.random() < 0.5])
+    if rng.random() < 0.25:
+        hist.append(['PresenceDisappears'])
+    if rng.random() < 0.25:
+        hist.append(['PlacementDisappears'])
+    if rng.random() < 0.3:
+        hist.append(['Notify', True])            # `.ready` left by an earlier life
+    hist.append(['Boot'])
+    for _ in range(rng.randrange(1, 3)):
+        evs = []
+        for _ in range(rng.randrange(4, 13)):
+            r = rng.random()
+            a = rng.choice(names)
+            if r < 0.30:
+                evs.append(['Heartbeat'])
+            elif r < 0.45:
+                evs.append(['Place', a, rng.choice(PVERS), rng.random() < 0.5])
+            elif r < 0.55:
+                evs.append(['Unplace', a])
+            elif r < 0.65:
+                evs.append(['SetMan', a, rng.choice(MVERS)])
+            elif r < 0.80:
+                evs.append([rng.choice(['PresenceAppears', 'PresenceDisappears'])])
+            else:
+                evs.append([rng.choice(['PlacementAppears', 'PlacementDisappears'])])
+        evs.append(['Heartbeat'])
+        hist.append(['Live', evs])
     return hist
